@@ -146,6 +146,27 @@ end
 
 def pruneSubtree (id : Nat) (sup : Bool) (t : T) : T := supIf sup (cut id t)
 
+/-! ## specification of extraction with both filter flags -/
+mutual
+/-- `extract_tree` by its docstring, for any setting of `is_apply_filter_to_leaf_nodes` (`fl`) and
+    `is_apply_filter_to_internal_nodes` (`fi`): a node to which the filter applies and which it rejects is excluded together
+    with everything below it; an internal node none of whose children made it is excluded; a node left with one child is
+    merged into it when `sup`.  `none`: nothing of the tree is left. -/
+def exSpec (acc : Acc) (fl fi sup : Bool) : T → Option T
+  | .node i x l s [] => if fl && !acc i x then none else some (.node i x l s [])
+  | .node i x l s (c :: cs) =>
+    if fi && !acc i x then none else
+    match exSpecL acc fl fi sup (c :: cs) with
+    | [] => none
+    | [k] => if sup then some (k.withLen (addLen k.len l)) else some (.node i x l s [k])
+    | ks => some (.node i x l s ks)
+def exSpecL (acc : Acc) (fl fi sup : Bool) : List T → List T
+  | [] => []
+  | c :: cs => match exSpec acc fl fi sup c with
+    | some r => r :: exSpecL acc fl fi sup cs
+    | none => exSpecL acc fl fi sup cs
+end
+
 /-! ## `Node.extract_subtree` / `Tree.extract_tree` -/
 mutual
 /-- the sequence `postorder_iter` yields -/
@@ -225,6 +246,43 @@ def taxonFilter (K : Nat → Bool) : Acc := fun _ x => match x with
 def keepTaxa (K : Nat → Bool) : Acc := fun _ x => match x with
   | none => false
   | some k => K k
+
+/-! ## the by-label entry points: label → taxa resolution through the namespace -/
+/-- a namespace as the by-label entry points see it: its members in namespace order, each with accession bit and label -/
+abbrev Ns := List (Nat × String)
+
+/-- the namespace's case rule: labels are compared as they are when it is case-sensitive, lower-cased otherwise
+    (`str.lower()`; the model folds ASCII letters, the harness only generates ASCII labels) -/
+def foldCase (cs : Bool) (s : String) : String := if cs then s else s.toLower
+def labelMatch (cs : Bool) (own given : String) : Bool := foldCase cs given == foldCase cs own
+
+/-- `TaxonNamespace._lookup_label(label)` without `first_match_only`: every member whose label matches, in namespace order -/
+def lookupLabel (cs : Bool) (ns : Ns) (g : String) : List Nat :=
+  (ns.filter (fun m => labelMatch cs m.2 g)).map (·.1)
+
+/-- the inner loop of `get_taxa`: `for t in tt: if t not in taxa: taxa.append(t)` -/
+def addNew (acc : List Nat) (l : List Nat) : List Nat := l.foldl (fun a t => if a.contains t then a else a ++ [t]) acc
+
+/-- `TaxonNamespace.get_taxa(labels)`: for each given label in turn, all matching members not collected yet -/
+def getTaxa (cs : Bool) (ns : Ns) (labels : List String) : List Nat :=
+  labels.foldl (fun acc g => addNew acc (lookupLabel cs ns g)) []
+
+/-- `Tree.prune_taxa_with_labels(labels)` = `prune_taxa(get_taxa(labels))` -/
+def pruneWithLabels (cs : Bool) (ns : Ns) (labels : List String) (sup : Bool) (t : T) : Option T :=
+  pruneTaxa (fun k => (getTaxa cs ns labels).contains k) true false sup t
+/-- `Tree.retain_taxa_with_labels(labels)` = `retain_taxa(get_taxa(labels))` -/
+def retainWithLabels (cs : Bool) (ns : Ns) (labels : List String) (sup : Bool) (t : T) : Option T :=
+  retainTaxa (ns.map (·.1)) (fun k => (getTaxa cs ns labels).contains k) sup t
+/-- `Tree.extract_tree_with_taxa_labels(labels)`: filter "taxon-less or taxon in get_taxa(labels)" -/
+def extractWithLabels (cs : Bool) (ns : Ns) (labels : List String) (sup : Bool) (t : T) : ExRes :=
+  extractTree (taxonFilter (fun k => (getTaxa cs ns labels).contains k)) true false sup t
+/-- `Tree.extract_tree_without_taxa_labels(labels)`: filter "taxon-less or taxon not in get_taxa(labels)" -/
+def extractWithoutLabels (cs : Bool) (ns : Ns) (labels : List String) (sup : Bool) (t : T) : ExRes :=
+  extractTree (taxonFilter (fun k => !(getTaxa cs ns labels).contains k)) true false sup t
+
+/-- the taxon (bit) carries a label that one of the given labels names, under the namespace's case rule -/
+def named (cs : Bool) (ns : Ns) (labels : List String) (k : Nat) : Bool :=
+  ns.any (fun m => m.1 == k && labels.any (fun g => labelMatch cs m.2 g))
 
 /-! ## measurement functions the clause theorems are stated with (the driver runs them: op `measure`) -/
 mutual
